@@ -292,19 +292,28 @@ def step (cl : Cl) (args : List String) (impl : String) : Cl × Driver.Out :=
           let res := if authentic then relayPacket nr idx else Fwd.drop "unauthenticated"
           let (model, tag) := match res with
             | .forward tid outIdx =>
-              match (nr.findHost tid).bind (fun t => addrNode (t.vpnAddrs.headD 0)) with
-              | some d => (s!"fwd {d} {outIdx}", "fwd:forwarded")
+              match nr.findHost tid with
+              | some t =>
+                -- SendVia writes to the next hop's current underlay address; a tunnel that lost it
+                -- (no valid remote) gets the datagram written to the invalid address, i.e. nowhere
+                if !t.remoteValid then (s!"fwd -1 {outIdx}", "fwd:forwarded-no-underlay")
+                else match addrNode (t.vpnAddrs.headD 0) with
+                  | some d => (s!"fwd {d} {outIdx}", "fwd:forwarded")
+                  | none => ("none", "fwd:forwarded-nowhere")
               | none => ("none", "fwd:forwarded-nowhere")
             | .terminal _ => ("none", "fwd:terminal")
             | .drop why => ("none", "fwd:drop-" ++ why)
           -- property oracle on the implementation's answer
           let verdict := match impl.splitOn " " with
             | ["fwd", d, oi] =>
-              match d.toNat?, oi.toNat? with
+              match d.toInt?, oi.toNat? with
               | some d, some oi =>
                 if !authentic then "bad fwd-unauthenticated"
                 else if !nr.amRelay then "bad fwd-while-not-relay"
-                else if nr.hosts.any (fun t => t.vpnAddrs.contains (nodeAddr d) && Spec.Relay.okForward nr hs.remoteId idx t.id oi) then "ok"
+                else if d < 0 then
+                  -- written to an invalid underlay address: the pair must still be the right one
+                  (if nr.hosts.any (fun t => !t.remoteValid && Spec.Relay.okForward nr hs.remoteId idx t.id oi) then "ok" else "bad fwd-wrong-pair")
+                else if nr.hosts.any (fun t => t.vpnAddrs.contains (nodeAddr d.toNat) && Spec.Relay.okForward nr hs.remoteId idx t.id oi) then "ok"
                 else "bad fwd-wrong-pair"
               | _, _ => "bad fwd-unparsable"
             | _ => "ok"
